@@ -12,6 +12,7 @@ import (
 	"os/exec"
 	"path/filepath"
 	"strings"
+	"sync"
 	"time"
 )
 
@@ -28,6 +29,7 @@ func RunSelftest(args []string) int {
 	verif := "/verif"
 	repo := "/repo"
 	only := ""
+	jobs := 4
 	for i := 0; i < len(args); i++ {
 		switch args[i] {
 		case "-only":
@@ -36,6 +38,9 @@ func RunSelftest(args []string) int {
 		case "-repo":
 			i++
 			repo = args[i]
+		case "-j":
+			i++
+			fmt.Sscanf(args[i], "%d", &jobs)
 		}
 	}
 	b, err := os.ReadFile(filepath.Join(verif, "selftest", "mutants", "index.json"))
@@ -51,16 +56,27 @@ func RunSelftest(args []string) int {
 	self, _ := os.Executable()
 	failed := 0
 	ran := 0
+	var mu sync.Mutex
+	var wg sync.WaitGroup
+	sem := make(chan struct{}, jobs)
 	for _, m := range ms {
 		if only != "" && !strings.Contains(m.Name, only) && m.Property != only {
 			continue
 		}
 		ran++
+		wg.Add(1)
+		sem <- struct{}{}
+		go func(m mutant) {
+		defer wg.Done()
+		defer func() { <-sem }()
 		start := time.Now()
 		scratch, err := os.MkdirTemp("", "govc-selftest-*")
 		if err != nil {
 			fmt.Println(err)
-			return 2
+			mu.Lock()
+			failed++
+			mu.Unlock()
+			return
 		}
 		ok, detail := func() (bool, string) {
 			defer os.RemoveAll(scratch)
@@ -99,13 +115,17 @@ func RunSelftest(args []string) int {
 			}
 			return false, "expected a failed obligation containing " + m.Expect + "; output tail:\n" + tail
 		}()
+		mu.Lock()
+		defer mu.Unlock()
 		if ok {
 			fmt.Printf("selftest: KILLED  %-40s %s (%.1fs)\n", m.Name, m.Property, time.Since(start).Seconds())
 		} else {
 			failed++
 			fmt.Printf("selftest: SURVIVED %-40s %s: %s\n", m.Name, m.Property, detail)
 		}
+		}(m)
 	}
+	wg.Wait()
 	fmt.Printf("selftest: %d mutants, %d survived\n", ran, failed)
 	if failed > 0 {
 		return 1
